@@ -320,3 +320,29 @@ package tsm1
 //@   at after copy#1: ghost bmax = ts.Max
 //@   call DeleteRange#2 requires flush_uses_batch_range_full: prev.Min == bmin && prev.Max == bmax
 //@   ensures batch_range: len(batch) > 0 ==> bmin == prev.Min && bmax == prev.Max
+
+// ---- C18: a time-bounded export keeps exactly the blocks that intersect the window ----
+// Ghost `pending`: the block just read intersects [start, end] and has not been written yet. It must be false
+// whenever the next block is fetched (nothing inside the window is dropped) and true whenever a block is
+// written (nothing outside the window is exported).
+//@ pure intersects(mn, mx, s, e) = mn <= e && mx >= s
+//@ func NewTSMWriter
+//@   assumed
+//@   modifies nothing
+//@   ensures writer_or_error: result1 == nil ==> result0 != nil
+
+//@ func (*TSMReader).BlockIterator
+//@   assumed
+//@   modifies nothing
+//@   ensures result != nil
+
+//@ func (*Engine).filterFileToBackup
+//@   props C18
+//@   requires r != nil && fi != nil && tw != nil
+//@   requires window_ordered: start <= end
+//@   ghost pending bool = false
+//@   at after BlockIterator.Read#1: assume callresult1 <= callresult2
+//@   at after BlockIterator.Read#1: ghost pending = intersects(callresult1, callresult2, start, end)
+//@   at after WriteBlock#1: ghost pending = false
+//@   call WriteBlock#1 requires only_blocks_in_window: pending
+//@   loop 1 invariant no_block_in_window_dropped: !pending
